@@ -1,13 +1,13 @@
 (* Run_C19.v — evaluates the C19 specification and model on what the real
    macros did with generated declarations.  Verdict codes:
-     0 agree   1 violation   2 divergence   9 malformed   119 known finding K19 *)
+     0 agree   1 violation   2 divergence   9 malformed
+   (no known-finding class: K19 was fixed by 9fd4ea2; a reappearance is code 1) *)
 From DS Require Import Base Versions Semver DocComment Macro.
 
 Definition V_AGREE : N := 0.
 Definition V_VIOLATION : N := 1.
 Definition V_DIVERGE : N := 2.
 Definition V_MALFORMED : N := 9.
-Definition V_K19 : N := 119.
 
 Inductive c19case :=
 (* one declaration, in the three styles [Function; TraitImpl; TraitStub]:
@@ -36,7 +36,6 @@ Definition judge (c : c19case) : N :=
       let (fields_ok, doc_ok) := spec_decl a eps unv probes in
       let model_ok := model_decl a eps unv probes in
       if fields_ok && doc_ok then (if model_ok then V_AGREE else V_DIVERGE)
-      else if fields_ok && k19_class (a_docs a) && model_ok then V_K19
       else V_VIOLATION
   | CDocs v e1 e2 n =>
       match Semver.parse v with
